@@ -16,7 +16,7 @@ def run(ctx):
         ctx.harness_error("sizes", str(r)[:800])
         return
     ndoc = r["value"]["ndoc"]
-    T = 300 if ctx.quick() else 2400
+    T = 300 if ctx.quick() else 900
     jobs = []
     CH = 120
     n_off = 0
